@@ -40,7 +40,19 @@ type mwRouter struct {
 	traceH  int64
 }
 
+// mwObj is a facade object that stays around: registrations made through it later must still carry exactly
+// its own middleware list (own arguments first, then the parent's), whatever was derived from it meanwhile.
+type mwObj struct {
+	rt      *mwRouter
+	pattern string
+	mws     []string
+	p       *mux.Prefix[*mon.Hnd]
+	res     *mux.Resource[*mon.Hnd]
+	depth   int
+}
+
 type mwWorld struct {
+	objs []*mwObj
 	c           *Ctx
 	env         *mon.Env
 	seq         int
@@ -221,9 +233,141 @@ func (w *mwWorld) groupAdd(rt *mwRouter) {
 	w.checkCalls("Group.Add("+rt.name+")", w.env.TakeMWCalls(), w.gUse, rt.wrapped())
 }
 
+// newFacade creates a persistent Prefix / nested Prefix (also with an empty name) / Resource object.
+func (w *mwWorld) newFacade(rt *mwRouter) {
+	r := w.c.R
+	pattern := ref.Pick(r, c09Patterns)
+	names, ms := w.names("f", r.Intn(3))
+	var parents []*mwObj
+	for _, o := range w.objs {
+		if o.rt == rt && o.p != nil && strings.HasPrefix(pattern, o.pattern) {
+			parents = append(parents, o)
+		}
+	}
+	switch x := r.Intn(4); {
+	case x == 0 || len(parents) == 0:
+		cut := r.Intn(len(pattern) + 1)
+		o := &mwObj{rt: rt, pattern: pattern[:cut], mws: names, depth: 1}
+		o.p = rt.r.Prefix(o.pattern, ms...)
+		w.objs = append(w.objs, o)
+		w.log("obj%d := %s.Prefix(%q, %v)", len(w.objs)-1, rt.name, o.pattern, names)
+	case x == 1:
+		o := &mwObj{rt: rt, pattern: pattern, mws: names, depth: 1}
+		o.res = rt.r.Resource(pattern, ms...)
+		w.objs = append(w.objs, o)
+		w.log("obj%d := %s.Resource(%q, %v)", len(w.objs)-1, rt.name, pattern, names)
+	case x == 2:
+		par := ref.Pick(r, parents)
+		rest := pattern[len(par.pattern):]
+		cut := r.Intn(len(rest) + 1)
+		if r.Chance(1, 3) {
+			cut = 0 // a nested prefix with an empty name: must not change what the parent registers later
+		}
+		o := &mwObj{rt: rt, pattern: par.pattern + rest[:cut], mws: append(append([]string{}, names...), par.mws...), depth: par.depth + 1}
+		o.p = par.p.Prefix(rest[:cut], ms...)
+		w.objs = append(w.objs, o)
+		w.log("obj%d := (prefix %q).Prefix(%q, %v)", len(w.objs)-1, par.pattern, rest[:cut], names)
+	default:
+		par := ref.Pick(r, parents)
+		o := &mwObj{rt: rt, pattern: pattern, mws: append(append([]string{}, names...), par.mws...), depth: par.depth + 1}
+		o.res = par.p.Resource(pattern[len(par.pattern):], ms...)
+		w.objs = append(w.objs, o)
+		w.log("obj%d := (prefix %q).Resource(%q, %v)", len(w.objs)-1, par.pattern, pattern[len(par.pattern):], names)
+	}
+}
+
+// handleVia registers through a persistent facade object created earlier.
+func (w *mwWorld) handleVia(rt *mwRouter) bool {
+	r := w.c.R
+	var mine []*mwObj
+	for _, o := range w.objs {
+		if o.rt == rt {
+			mine = append(mine, o)
+		}
+	}
+	if len(mine) == 0 {
+		return false
+	}
+	o := ref.Pick(r, mine)
+	pattern := o.pattern
+	if o.p != nil {
+		var fits []string
+		for _, p := range c09Patterns {
+			if strings.HasPrefix(p, o.pattern) {
+				fits = append(fits, p)
+			}
+		}
+		if len(fits) == 0 {
+			return false
+		}
+		pattern = ref.Pick(r, fits)
+	}
+	e := rt.pats[pattern]
+	var free []string
+	for _, m := range gen.AnyMethods {
+		if e == nil || e.methods[m].base == nil {
+			free = append(free, m)
+		}
+	}
+	if len(free) == 0 {
+		return false
+	}
+	ref.Shuffle(r, free)
+	methods := free[:r.Range(1, min(2, len(free)))]
+	h := w.env.NewHnd(mon.KRoute, pattern)
+	regNames, regMW := w.names("r", r.Intn(3))
+	inner := append(append([]string{}, regNames...), o.mws...)
+	w.env.TakeMWCalls()
+	nb := len(w.env.Builders)
+	if o.p != nil {
+		o.p.Handle(pattern[len(o.pattern):], h, regMW, methods...)
+	} else {
+		o.res.Handle(h, regMW, methods...)
+	}
+	if o.depth > w.depthMax {
+		w.depthMax = o.depth
+	}
+	w.log("%s: through an existing facade object (pattern %q, mws %v): %q %v reg=%v", rt.name, o.pattern, o.mws, pattern, methods, regNames)
+	w.c.Class("registration_through_persistent_facade")
+	w.mirror(rt, pattern, methods, h, inner, nb)
+	return true
+}
+
+// mirror records an accepted registration in the model and checks the factory calls it caused.
+func (w *mwWorld) mirror(rt *mwRouter, pattern string, methods []string, h *mon.Hnd, inner []string, nb int) {
+	e := rt.pats[pattern]
+	first := e == nil
+	if first {
+		e = &mwEntry{methods: map[string]mwReg{}, first: inner}
+		rt.pats[pattern] = e
+		for _, b := range w.env.Builders[nb:] {
+			if b.Pattern == pattern && b.Kind == mon.KOptions {
+				e.opt = b.H.ID
+			} else if b.Pattern == pattern {
+				e.m405 = b.H.ID
+			}
+		}
+	}
+	var want []wrapKey
+	for _, m := range methods {
+		e.methods[m] = mwReg{base: h, inner: inner}
+		want = append(want, wrapKey{h.ID, m, rt.name})
+		if m == "GET" {
+			want = append(want, wrapKey{h.ID, "HEAD", rt.name})
+		}
+	}
+	if first {
+		want = append(want, wrapKey{e.opt, "OPTIONS", rt.name}, wrapKey{e.m405, "", rt.name})
+	}
+	w.checkCalls("registration of "+pattern, w.env.TakeMWCalls(), append(append([]string{}, inner...), rt.use...), want)
+}
+
 // handle registers through a random facade nesting and mirrors the lists.
 func (w *mwWorld) handle(rt *mwRouter) {
 	r := w.c.R
+	if r.Chance(1, 2) && w.handleVia(rt) {
+		return
+	}
 	pattern := ref.Pick(r, c09Patterns)
 	e := rt.pats[pattern]
 	var free []string
@@ -286,30 +430,7 @@ func (w *mwWorld) handle(rt *mwRouter) {
 		w.depthMax = depth
 	}
 	w.log("%s: %s %q %v reg=%v", rt.name, desc, pattern, methods, regNames)
-	first := e == nil
-	if first {
-		e = &mwEntry{methods: map[string]mwReg{}, first: inner}
-		rt.pats[pattern] = e
-		for _, b := range w.env.Builders[nb:] {
-			if b.Pattern == pattern && b.Kind == mon.KOptions {
-				e.opt = b.H.ID
-			} else if b.Pattern == pattern {
-				e.m405 = b.H.ID
-			}
-		}
-	}
-	var want []wrapKey
-	for _, m := range methods {
-		e.methods[m] = mwReg{base: h, inner: inner}
-		want = append(want, wrapKey{h.ID, m, rt.name})
-		if m == "GET" {
-			want = append(want, wrapKey{h.ID, "HEAD", rt.name})
-		}
-	}
-	if first {
-		want = append(want, wrapKey{e.opt, "OPTIONS", rt.name}, wrapKey{e.m405, "", rt.name})
-	}
-	w.checkCalls("registration of "+pattern, w.env.TakeMWCalls(), append(append([]string{}, inner...), rt.use...), want)
+	w.mirror(rt, pattern, methods, h, inner, nb)
 }
 
 func (w *mwWorld) remove(rt *mwRouter) {
@@ -427,8 +548,10 @@ func runC09(c *Ctx) {
 	for i := 0; i < nops && !c.Violated(); i++ {
 		rt := ref.Pick(r, w.routers)
 		switch x := r.Intn(100); {
-		case x < 45:
+		case x < 38:
 			w.handle(rt)
+		case x < 45:
+			w.newFacade(rt)
 		case x < 62:
 			w.use(rt)
 		case x < 72:
